@@ -210,6 +210,8 @@ def container_delegation(ctx):
             for c in ast.walk(f.node):
                 if not isinstance(c, ast.Call):
                     continue
+                if meth == 'copy' and isinstance(c.func, ast.Name) and c.args and _is_member_expr(c.args[0], names) and is_copier(m, f.module, c.func.id):
+                    calls.append((c, 'copy'))       # copied_members(self.members): a function that copies what it is given
                 if isinstance(c.func, ast.Attribute) and _is_member_expr(c.func.value, names):
                     calls.append((c, c.func.attr))
                 elif _is_member_expr(c.func, names):
